@@ -239,14 +239,67 @@ class Body:
         if k in ("goto", "drop", "assert", "yield"):
             out.append((t["t"], k))
         elif k == "switch":
-            for v, tb in t["arms"]:
-                out.append((tb, v))
-            out.append((t["otherwise"], "otherwise"))
+            cv = None
+            d = self._const_operand(t["d"])
+            if d is not None and "const" in d:
+                c = d["const"]
+                if "bool" in c:
+                    cv = "1" if c["bool"] else "0"
+                elif "int" in c:
+                    cv = c["int"]
+            if cv is not None:
+                # constant condition (e.g. tracing's `if false`): only the matching arm is feasible
+                hit = [(tb, v) for v, tb in t["arms"] if v == cv]
+                out.append(hit[0] if hit else (t["otherwise"], "otherwise"))
+            else:
+                for v, tb in t["arms"]:
+                    out.append((tb, v))
+                out.append((t["otherwise"], "otherwise"))
         elif k == "call":
             if t.get("t") is not None:
                 out.append((t["t"], "ret"))
         # return, unreachable, resume, terminate, cordrop, tailcall, asm: no normal successors
         self._succ[bb] = out
+        return out
+
+    def _const_operand(self, o, hops=4):
+        """Follow `_x = const c` single definitions so that `if false` style switches are recognised."""
+        while hops > 0:
+            hops -= 1
+            if "const" in o:
+                return o
+            p = o.get("copy") or o.get("move")
+            if not p or p["p"]:
+                return None
+            l = p["l"]
+            n = 0
+            rv = None
+            for b in self.blocks:
+                if b["cleanup"]:
+                    continue
+                for st in b["stmts"]:
+                    if st["k"] == "assign" and st["lhs"]["l"] == l and not st["lhs"]["p"]:
+                        n += 1
+                        rv = st["rv"]
+                t = b["term"]
+                if t["k"] == "call" and t["dest"]["l"] == l:
+                    n += 2
+            if n != 1 or rv is None or "use" not in rv:
+                return None
+            o = rv["use"]
+        return None
+
+    def return_defs(self):
+        """Definitions of the return place _0 on live normal paths: [(bb, expr, raw)]"""
+        out = []
+        live = self.live_blocks()
+        for d in self.defs().get(0, []):
+            if d[1] not in live:
+                continue
+            if d[0] == "assign":
+                out.append((d[1], self.rvalue_expr(d[3]), d[3]))
+            elif d[0] == "call":
+                out.append((d[1], ("call", d[2], [self.operand_expr(a) for a in d[2].args]), d[2]))
         return out
 
     def normal_blocks(self):
